@@ -6,7 +6,27 @@ import (
 	"strings"
 )
 
-func init() { register("C05", &Prop{Gen: c05Gen, Run: storeRun}) }
+func init() {
+	register("C05", &Prop{Gen: c05Gen, Run: c05Run, Done: func() {
+		if c06Srv != nil {
+			c06Srv.stop()
+		}
+	}})
+}
+
+// c05Run: store-level cases run on a fresh database file (storeRun); cases "B=<setup>|<refusable final write>" run over
+// the BUS on an in-process instance with a subscription to up.> (the machinery of C06): the reply of every request and
+// everything rebroadcast for the final one are observed, so that a refused write that is rebroadcast anyway, or a handler
+// that stops answering, is seen at the place subscribers see it.
+func c05Run(c string) string {
+	if strings.HasPrefix(c, "B=") {
+		if c06Srv == nil {
+			c06Init()
+		}
+		return c06Run(strings.TrimPrefix(c, "B="))
+	}
+	return storeRun(c)
+}
 
 // c05Gen: build a small graph, then mix refusable writes (self edge, root tombstone, NaN inside an
 // otherwise good batch, cycle-closing edges incl. through tombstoned edges, new edge without node
@@ -14,6 +34,10 @@ func init() { register("C05", &Prop{Gen: c05Gen, Run: storeRun}) }
 func c05Gen(r *rand.Rand, n int, tier string) []string {
 	var out []string
 	for i := 0; i < n; i++ {
+		if i%5 == 4 {
+			out = append(out, c05BusCase(r))
+			continue
+		}
 		clock := int64(100)
 		tick := func() int64 { clock += int64(1 + r.Intn(3)); return clock }
 		nt := func() string { return fmt.Sprintf("%s,-,0,%s,%d,0,-,-", hxs("nodeType"), hxs("device"), tick()) }
@@ -69,4 +93,50 @@ func c05Gen(r *rand.Rand, n int, tier string) []string {
 		out = append(out, strings.Join(ops, ";"))
 	}
 	return out
+}
+
+// c05BusCase: the chain R -> a -> b -> c plus d under a (an inner edge sometimes tombstoned) built over the bus, then ONE
+// final write, mostly of a kind that must be refused (cycle through live or deleted edges, self edge, tombstone aimed at
+// the root, first edge without node type, NaN anywhere in a node-point or edge-point batch), sometimes a good one.
+func c05BusCase(r *rand.Rand) string {
+	clock := int64(100)
+	tick := func() int64 { clock += 2; return clock }
+	nt := func() string { return fmt.Sprintf("%s,-,0,%s,%d,0,-,-", hxs("nodeType"), hxs("device"), tick()) }
+	tomb := func(v float64) string { return fmt.Sprintf("%s,-,%s,-,%d,0,-,-", hxs("tombstone"), valStr(v), tick()) }
+	val := func(v string) string {
+		return fmt.Sprintf("%s,%s,%s,-,%d,0,-,-", hxs("value"), hxs(pick(r, []string{"", "0", "1"})), v, tick())
+	}
+	chain := []string{"R", "a", "b", "c"}
+	var ops []string
+	for j := 1; j < len(chain); j++ {
+		ops = append(ops, "ep:"+hxs(chain[j])+":"+hxs(chain[j-1])+":"+nt())
+	}
+	ops = append(ops, "ep:"+hxs("d")+":"+hxs("a")+":"+nt())
+	if r.Intn(2) == 0 {
+		ops = append(ops, "ep:"+hxs("b")+":"+hxs("a")+":"+tomb(1))
+	}
+	var final string
+	switch r.Intn(8) {
+	case 0:
+		x := pick(r, chain[1:])
+		final = "ep:" + hxs(x) + ":" + hxs(x) + ":" + nt()
+	case 1:
+		final = "ep:" + hxs("R") + ":" + hxs(pick(r, []string{"", "root"})) + ":" + tomb(pick(r, []float64{1, 3}))
+	case 2:
+		final = "np:" + hxs(pick(r, chain[1:])) + ":" + val("4607182418800017408") + "+" + val("nan")
+	case 3:
+		final = "ep:" + hxs("b") + ":" + hxs("a") + ":" + val("nan") + "+" + tomb(0)
+	case 4, 5:
+		p := pick(r, [][2]string{{"a", "c"}, {"a", "b"}, {"R", "c"}, {"b", "c"}, {"a", "d"}, {"R", "d"}})
+		pts := nt()
+		if r.Intn(2) == 0 {
+			pts = tomb(0) + "+" + nt()
+		}
+		final = "ep:" + hxs(p[0]) + ":" + hxs(p[1]) + ":" + pts
+	case 6:
+		final = "ep:" + hxs(pick(r, []string{"e", "f"})) + ":" + hxs(pick(r, chain)) + ":" + tomb(0)
+	default:
+		final = "ep:" + hxs("c") + ":" + hxs("b") + ":" + val("4611686018427387904")
+	}
+	return "B=" + strings.Join(ops, ";") + "|" + final
 }
